@@ -307,14 +307,34 @@ func runC10(p *Prog, l *Ledger) {
 				order := map[ssa.Instruction]int{}
 				k := 0
 				var deleg, wake ssa.Instruction
+				// calls in the order they execute: deferred ones run when the method returns, last deferred first
+				var seq, deferred []ssa.Instruction
 				pa.Each(func(step int, ins ssa.Instruction) bool {
+					switch ins.(type) {
+					case *ssa.Call:
+						seq = append(seq, ins)
+					case *ssa.Defer:
+						deferred = append(deferred, ins)
+					}
+					return true
+				})
+				for i := len(deferred) - 1; i >= 0; i-- {
+					seq = append(seq, deferred[i])
+				}
+				eachCall := func(fn func(step int, ins ssa.Instruction) bool) {
+					for _, ins := range seq {
+						if !fn(pa.StepOf(ins), ins) {
+							return
+						}
+					}
+				}
+				eachCall(func(step int, ins ssa.Instruction) bool {
 					k++
 					order[ins] = k
-					call, ok := ins.(*ssa.Call)
-					if !ok {
+					c := p.CallOf(ins)
+					if c == nil {
 						return true
 					}
-					c := p.CallOf(call)
 					for _, o := range c02Outcomes {
 						if p.isCoreInvoke(c, "Listener", o) {
 							if fr, _, ok := loadedField(strip(c.Recv, false)); ok && sameField(fr, df) {
